@@ -344,6 +344,8 @@ class Body:
                 return ("int", o["int"])
             if "fn" in o:
                 return ("fn", callee_name(o["fn"]))
+            if "static" in o:
+                return ("const", "static " + o["static"], o["ty"])
             return ("const", o["val"], o["ty"])
         return self.expr_of_place(o["place"], depth)
 
